@@ -124,6 +124,11 @@ func (s *scripted) get(t *sTxn, k int) {
 	s.tick()
 	id := s.idOf(got, ok)
 	s.stat["gets"]++
+	if !t.finished {
+		if mark, ts := s.db.VerifReadMark(), t.tx.VerifReadTs(); mark > ts {
+			s.fail("C05", "read-watermark-above-open-snapshot", "T%d is open and reads at timestamp %d but the read watermark is %d", t.rec.ID, ts, mark)
+		}
+	}
 	if t.finished {
 		s.logf("T%d.Get(k%d)[finished]=%d", t.rec.ID, k, id)
 		s.stat["misuse_calls"]++
